@@ -77,6 +77,8 @@ func registry() map[string]*Rule {
 		{Name: "PLAN9", Floor: 3, Run: rulePLAN9, Doc: "rows of the criteria->range table for operators other than Eq are reached only with a non-nil operand (a nil bound means unbounded)"},
 		{Name: "CMP7", Floor: 0, Run: ruleCMP7, Doc: "abstract evaluation of Normalize on time.Time and *time.Time inputs yields time.Time (or nil), never the pointer"},
 		{Name: "EMPTY1", Floor: 4, Run: ruleEMPTY1, Doc: "container values ([]interface{}, map[string]interface{}) returned or stored by the copy/transform helpers of util, internal and document are never nil on a success path (empty containers stay empty)"},
+		{Name: "KEY7", Floor: 1, Run: ruleKEY7, Doc: "a name or id recovered from a scanned key is exactly one variable part of a written key layout, cut at positions that follow from the layout's literal text (never found by searching inside the variable part)"},
+		{Name: "WRITE1", Floor: 1, Run: ruleWRITE1, Doc: "after the caller's updater ran, every path to success or to the next document writes or deletes the record (no content-based skipping of the write)"},
 		{Name: "ALIAS1", Floor: 10, Run: ruleALIAS1, Doc: "no append into the spare capacity of a slice stored in a field or package variable unless the result replaces it (keys/bounds built on a cached prefix must not alias)"},
 		{Name: "ADP8", Floor: 2, Run: ruleADP8, Doc: "the key a store.Cursor implementation returns in store.Item stays valid after the cursor moves (badger: KeyCopy, not Key)"},
 	}
@@ -176,7 +178,7 @@ func propertyTable() map[string]*Property {
 		},
 		"C11": {
 			Technique:   tSSA + "call-graph reachability between codec entry points and time transformers, msgpack API whitelist",
-			Rules:       []string{"COD1", "COD2", "CMP7", "EMPTY1"},
+			Rules:       []string{"COD1", "COD2", "CMP7", "EMPTY1", "WRITE1"},
 			Explanation: "Decides structural clauses of C11: the time wrapper is unreachable from Decode and the unwrapper from Encode, and each transformer recurses into itself for map and slice elements (COD1: times inside arrays and inside objects nested in arrays come back as time.Time); the library uses msgpack only through Marshal/Unmarshal/RegisterExt, i.e. the default type-preserving configuration (COD2).",
 			NotDecided:  "msgpack's own fidelity for every value (trusted library), zone offsets and the gob encoding of times, deep equality of values.",
 			Assumptions: commonAssumptions,
@@ -190,15 +192,15 @@ func propertyTable() map[string]*Property {
 		},
 		"C13": {
 			Technique:   tSSA + "key-template abstract interpretation (family disjointness, delimiter-terminated bounds), guard ordering, adapter not-found mapping",
-			Rules:       []string{"KEY1~(iteratePrefix|ListCollections)", "KEY2", "KEY3", "GUARD1", "ADP1", "TX2~^DB\\.(CreateCollection|DropCollection|CreateCollectionByQuery|ImportCollection)/", "TX3~^DB\\.(CreateCollection|DropCollection|CreateCollectionByQuery|ImportCollection)/"},
+			Rules:       []string{"KEY1~(iteratePrefix|ListCollections)", "KEY2", "KEY3", "KEY7", "GUARD1", "ADP1", "TX2~^DB\\.(CreateCollection|DropCollection|CreateCollectionByQuery|ImportCollection)/", "TX3~^DB\\.(CreateCollection|DropCollection|CreateCollectionByQuery|ImportCollection)/"},
 			Explanation: "Decides structural clauses of C13: catalog keys, document keys and index keys are pairwise distinct layouts, every name is ';'-terminated inside a key, and every scan bound covers exactly one layout and ends in a delimiter - so collections whose names are prefixes of each other, and documents sharing ids, cannot see each other's keys (KEY1-KEY3); every operation looks the collection up in the catalog before any other store access (GUARD1) and a missing key is (nil, nil) on both backends (ADP1); nothing is committed on the error paths (TX2).",
 			NotDecided:  "Catalog contents over histories of create/drop.",
 			Assumptions: commonAssumptions,
 		},
 		"C14": {
 			Technique:   tSSA + "key-template abstract interpretation of the per-index prefix, nil-dereference guard analysis, guard ordering",
-			Rules:       []string{"KEY1~^index\\.", "KEY2", "NIL1~(listIndexes|hasIndex|createIndex|DropIndex)", "GUARD1~(createIndex|DropIndex|HasIndex|ListIndexes)", "IDX5~(index build|drop entries|drops the requested)", "VIS1~IndexSelectVisitor"},
-			Explanation: "Decides structural clauses of C14: the per-index prefix used by iteration and drop ends in the separator, so indexes on x / xy and on n / n.a never read or delete each other's entries (KEY1, KEY2); ListIndexes/HasIndex on a missing collection report the error without dereferencing the absent metadata (NIL1, GUARD1); index creation and drop update entries and catalog in the required order (IDX5); the index-selection visitor satisfies its callers' unchecked assertions (VIS1).",
+			Rules:       []string{"KEY1~^index\\.", "KEY2", "NIL1~(listIndexes|hasIndex|createIndex|DropIndex)", "GUARD1~(createIndex|DropIndex|HasIndex|ListIndexes)", "IDX5~(index build|drop entries|drops the requested)", "VIS1~IndexSelectVisitor", "PLAN7", "ADP8"},
+			Explanation: "Decides structural clauses of C14: the per-index prefix used by iteration and drop ends in the separator, so indexes on x / xy and on n / n.a never read or delete each other's entries (KEY1, KEY2); ListIndexes/HasIndex on a missing collection report the error without dereferencing the absent metadata (NIL1, GUARD1); index creation and drop update entries and catalog in the required order (IDX5); the index-selection visitor satisfies its callers' unchecked assertions (VIS1). The in-memory sort is elided only when the sort field is the field of the index that is actually scanned (PLAN7): otherwise creating an index on another field changes the order of results obtained through this one. The badger cursor hands out copies of its keys (ADP8), without which DropIndex leaves entries behind that a re-created index then serves.",
 			NotDecided:  "Catalog list arithmetic (swap-remove in DropIndex) over histories.",
 			Assumptions: commonAssumptions,
 		},
